@@ -131,26 +131,320 @@ func runC17(c *core.Ctx) {
 			}
 		}
 		o.Shape(n >= 1, "expected the root writers to be used, found %d", n)
-		// the single-leaf case is handled before collapse
-		src := c.Prog.Src(fn.Decl.Body)
-		o.Shape(strings.Contains(src, "iflen(w.tail)==1&&w.tail[0].depth==0{returnw.writeRootFromSingleLeaf(w.tail[0])}"), "a single completed leaf is not re-wrapped as a root")
-		o.Shape(strings.Contains(src, "ifroot.depth>0{returnw.writeRootWithKids(root.ref)}"), "a merged node is not wrapped in a Limits-free root")
+		// A node that was written as a non-root (leaf or merged) carries /Limits.
+		// finish therefore wraps it: there is a return of a root writer's result
+		// (a function all of whose node literals lack /Limits) under "depth == 0"
+		// (a single completed leaf) and one under "depth > 0" (a merged node).
+		rootWriters := map[*types.Func]bool{}
+		for _, f := range c.Prog.Funcs(c.Prog.Pkg(pk)) {
+			if f.Decl.Body == nil || !strings.Contains(f.Key, "treeWriter") {
+				continue
+			}
+			lits, withLimits := 0, 0
+			ast.Inspect(f.Decl.Body, func(m ast.Node) bool {
+				if cl, ok := m.(*ast.CompositeLit); ok && core.IsNamed(f.Info().TypeOf(cl), "pdf", "Dict") {
+					lits++
+					for _, el := range cl.Elts {
+						if kv, ok := el.(*ast.KeyValueExpr); ok {
+							if k, isS := core.StringConst(f.Info(), kv.Key); isS && k == "Limits" {
+								withLimits++
+							}
+						}
+					}
+				}
+				return true
+			})
+			if lits > 0 && withLimits == 0 {
+				rootWriters[f.Obj] = true
+			}
+		}
+		// ... or that only forward to such a function
+		for changed := true; changed; {
+			changed = false
+			for _, f := range c.Prog.Funcs(c.Prog.Pkg(pk)) {
+				if f.Decl.Body == nil || rootWriters[f.Obj] || !strings.Contains(f.Key, "treeWriter") {
+					continue
+				}
+				hasLit := false
+				ast.Inspect(f.Decl.Body, func(m ast.Node) bool {
+					if cl, ok := m.(*ast.CompositeLit); ok && core.IsNamed(f.Info().TypeOf(cl), "pdf", "Dict") {
+						hasLit = true
+					}
+					return true
+				})
+				if hasLit {
+					continue
+				}
+				rets, fwd := 0, 0
+				ast.Inspect(f.Decl.Body, func(m ast.Node) bool {
+					if rs, ok := m.(*ast.ReturnStmt); ok {
+						rets++
+						if len(rs.Results) == 1 {
+							if call, ok := ast.Unparen(rs.Results[0]).(*ast.CallExpr); ok {
+								if cal := core.Callee(f.Info(), call); cal != nil && rootWriters[cal.Origin()] {
+									fwd++
+								}
+							}
+						}
+					}
+					return true
+				})
+				if rets > 0 && rets == fwd {
+					rootWriters[f.Obj] = true
+					changed = true
+				}
+			}
+		}
+		leafWrapped, mergedWrapped := false, false
+		var rootReturns []*core.V
+		for _, r := range g.Returns() {
+			rs := r.AST.(*ast.ReturnStmt)
+			if len(rs.Results) != 1 {
+				continue
+			}
+			call, ok := ast.Unparen(rs.Results[0]).(*ast.CallExpr)
+			if !ok {
+				continue
+			}
+			callee := core.Callee(info, call)
+			if callee == nil || !rootWriters[callee.Origin()] {
+				continue
+			}
+			rootReturns = append(rootReturns, r)
+		}
+		// the root may also be written in place: a return that is dominated by a
+		// Put of a Limits-free node literal in finish itself
+		for _, r := range g.Returns() {
+			rs := r.AST.(*ast.ReturnStmt)
+			if len(rs.Results) != 2 {
+				continue
+			}
+			for _, pv := range callVerticesSuffix(g, ".Put") {
+				if len(pv.Call.Args) != 2 || !g.Dominates(pv.V, r) {
+					continue
+				}
+				free := true
+				found := false
+				for _, vc := range valueCases(g, pv.V, pv.Call.Args[1], 2) {
+					cl, ok := ast.Unparen(vc.Expr).(*ast.CompositeLit)
+					if !ok {
+						free = false
+						continue
+					}
+					found = true
+					for _, el := range cl.Elts {
+						if kv, ok := el.(*ast.KeyValueExpr); ok {
+							if k, isS := core.StringConst(info, kv.Key); isS && k == "Limits" {
+								free = false
+							}
+						}
+					}
+				}
+				// the nearest Put: no other Put between it and the return
+				if found && free {
+					rootReturns = append(rootReturns, r)
+				}
+			}
+		}
+		for _, r := range rootReturns {
+			rs := r.AST.(*ast.ReturnStmt)
+			if g.GuardedBy(r, func(a core.Atom) bool {
+				cmp, ok := a.AsCmp()
+				if !ok {
+					return false
+				}
+				_, name, isSel := selName(cmp.L)
+				k, isK := core.IntConst(info, cmp.R)
+				return isSel && name == "depth" && isK && k == 0 && cmp.Op == token.EQL
+			}) {
+				leafWrapped = true
+				o.At(fn.Site(rs, "a single completed leaf is wrapped in a root"))
+			}
+			if g.GuardedBy(r, func(a core.Atom) bool {
+				cmp, ok := a.AsCmp()
+				if !ok {
+					return false
+				}
+				_, name, isSel := selName(cmp.L)
+				k, isK := core.IntConst(info, cmp.R)
+				return isSel && name == "depth" && isK && ((k == 0 && (cmp.Op == token.GTR || cmp.Op == token.NEQ)) || (k == 1 && cmp.Op == token.GEQ))
+			}) {
+				mergedWrapped = true
+				o.At(fn.Site(rs, "a merged node is wrapped in a root"))
+			}
+		}
+		if len(rootWriters) == 0 && len(rootReturns) == 0 {
+			o.Unrec("no root writer (a function whose node literals all lack /Limits) was found")
+		} else {
+			o.Require(leafWrapped, "a single completed leaf (depth 0, written with /Limits) is not wrapped in a Limits-free root: a tree with exactly one full leaf gets a root with /Limits")
+			o.Require(mergedWrapped, "a merged node (depth > 0, written with /Limits) is not wrapped in a Limits-free root")
+		}
 	})
-	c.Check("C17-R2", pk+".limits-provenance", "/Limits is [least key, greatest key] of exactly the children listed", func(o *core.Ob) {
-		leaf := c.Prog.Func(pk, "(*treeWriter).completePendingLeaf")
-		ls := c.Prog.Src(leaf.Decl.Body)
-		o.At(leaf.Site(leaf.Decl, "leaf"))
-		o.Shape(strings.Contains(ls, `"Limits":pdf.Array{kc.encode(w.pendingLeaf[0].key),kc.encode(w.pendingLeaf[len(w.pendingLeaf)-1].key),}`), "leaf /Limits is not built from the first and last pending key")
-		o.Shape(strings.Contains(ls, "for_,e:=rangew.pendingLeaf{entries=append(entries,kc.encode(e.key))entries=append(entries,e.value)}"), "the leaf array is not built from the same pending entries, key before value")
-		o.Shape(strings.Contains(ls, "minKey:w.pendingLeaf[0].key,maxKey:w.pendingLeaf[len(w.pendingLeaf)-1].key,"), "the leaf's recorded key range differs from its /Limits")
-		mn := c.Prog.Func(pk, "(*treeWriter).mergeNodes")
-		ms := c.Prog.Src(mn.Decl.Body)
-		o.At(mn.Site(mn.Decl, "intermediate"))
-		o.Shape(strings.Contains(ms, "children:=w.tail[start:end]"), "children slice")
-		o.Shape(strings.Contains(ms, "for_,child:=rangechildren{kids=append(kids,child.ref)}"), "/Kids is not built from the children slice in order")
-		o.Shape(strings.Contains(ms, `"Limits":pdf.Array{kc.encode(children[0].minKey),kc.encode(children[len(children)-1].maxKey),}`), "intermediate /Limits is not [first child's min, last child's max]")
-		o.Shape(strings.Contains(ms, "minKey:children[0].minKey,maxKey:children[len(children)-1].maxKey,"), "the merged node's recorded range differs from its /Limits")
-		o.Shape(strings.Contains(ms, "depth:children[0].depth+1"), "the merged node's depth")
+	c.Check("C17-R2", pk+".limits-provenance", "/Limits is [least key, greatest key] of exactly the children listed, and the range recorded for the node (which the next level's /Limits are built from) is the same", func(o *core.Ob) {
+		pkg := c.Prog.Pkg(pk)
+		nodes := 0
+		for _, fn := range c.Prog.Funcs(pkg) {
+			if fn.Decl.Body == nil || c.Prog.IsTestFile(fn.Decl.Pos()) || !strings.Contains(fn.Key, "treeWriter") {
+				continue
+			}
+			info := fn.Info()
+			g := fn.Graph()
+			for _, v := range g.Vs {
+				if v.AST == nil {
+					continue
+				}
+				if _, isLoop := v.AST.(*ast.RangeStmt); isLoop {
+					continue
+				}
+				if _, isLoop := v.AST.(*ast.ForStmt); isLoop {
+					continue
+				}
+				ast.Inspect(v.AST, func(m ast.Node) bool {
+					cl, ok := m.(*ast.CompositeLit)
+					if !ok || !core.IsNamed(info.TypeOf(cl), "pdf", "Dict") {
+						return true
+					}
+					var limits *ast.CompositeLit
+					var listKey string
+					var list ast.Expr
+					for _, el := range cl.Elts {
+						kv, ok := el.(*ast.KeyValueExpr)
+						if !ok {
+							continue
+						}
+						if k, isS := core.StringConst(info, kv.Key); isS && k == "Limits" {
+							limits, _ = ast.Unparen(kv.Value).(*ast.CompositeLit)
+						} else {
+							listKey = strings.ReplaceAll(core.ExprStr(kv.Key), " ", "")
+							list = kv.Value
+						}
+					}
+					if limits == nil || len(limits.Elts) != 2 || list == nil {
+						return true
+					}
+					nodes++
+					o.At(fn.Site(cl, "node with /Limits"))
+					unwrap := func(e ast.Expr) ast.Expr {
+						// kc.encode(X) -> X
+						if call, ok := ast.Unparen(e).(*ast.CallExpr); ok && len(call.Args) == 1 && strings.HasSuffix(strings.ReplaceAll(core.ExprStr(call.Fun), " ", ""), ".encode") {
+							return call.Args[0]
+						}
+						return e
+					}
+					lo := resolveText(g, v, unwrap(limits.Elts[0]), 4)
+					hi := resolveText(g, v, unwrap(limits.Elts[1]), 4)
+					// the listed children: the slice the list (entries / kids) is built from
+					var listObj types.Object
+					le := ast.Unparen(list)
+					if conv, ok := le.(*ast.CallExpr); ok && len(conv.Args) == 1 {
+						le = ast.Unparen(conv.Args[0])
+					}
+					listObj = core.ObjOf(info, le)
+					var src ast.Expr
+					var srcAt *core.V
+					leaf := false
+					if listObj != nil {
+						for _, h := range loopHeads(g) {
+							rs := h.Cond.Range
+							if rs == nil {
+								continue
+							}
+							fills := false
+							ast.Inspect(rs.Body, func(k ast.Node) bool {
+								if as, ok := k.(*ast.AssignStmt); ok {
+									for i, l := range as.Lhs {
+										if core.ObjOf(info, l) == listObj {
+											fills = true
+										}
+										if ix, isIx := ast.Unparen(l).(*ast.IndexExpr); isIx && core.ObjOf(info, ix.X) == listObj {
+											fills = true
+										}
+										_ = i
+									}
+									if strings.Contains(c.Prog.Src(as), ".value") {
+										leaf = true
+									}
+								}
+								return true
+							})
+							if fills {
+								src, srcAt = rs.X, h
+							}
+						}
+					}
+					if src == nil {
+						o.Unrec("%s: the loop that lists the children of the node at %s was not found", fn.Key, c.Prog.Pos(cl.Pos()))
+						return true
+					}
+					s := resolveText(g, srcAt, src, 4)
+					wantLo, wantHi := s+"[0].minKey", s+"[len("+s+")-1].maxKey"
+					if leaf {
+						wantLo, wantHi = s+"[0].key", s+"[len("+s+")-1].key"
+					}
+					o.Fact("%s: %s from %s, /Limits [%s, %s]", fn.Key, listKey, s, lo, hi)
+					if lo != wantLo {
+						o.FailAt(fn.Site(limits, ""), "the lower /Limits entry is %s, the least key of the listed children is %s", lo, wantLo)
+					}
+					if hi != wantHi {
+						o.FailAt(fn.Site(limits, ""), "the upper /Limits entry is %s, the greatest key of the listed children is %s", hi, wantHi)
+					}
+					// the record kept for the node: a nodeInfo value created in this function
+					recs := 0
+					for _, rv := range g.Vs {
+						if rv.AST == nil {
+							continue
+						}
+						var bases []ast.Expr
+						switch x := rv.AST.(type) {
+						case *ast.AssignStmt:
+							if len(x.Lhs) == len(x.Rhs) {
+								for i, r := range x.Rhs {
+									rr := ast.Unparen(r)
+									if u, ok := rr.(*ast.UnaryExpr); ok && u.Op == token.AND {
+										rr = ast.Unparen(u.X)
+									}
+									if rcl, ok := rr.(*ast.CompositeLit); ok && strings.Contains(core.TypeString(info.TypeOf(rcl)), "nodeInfo") {
+										bases = append(bases, rcl)
+										_ = i
+									}
+									if st, ok := rr.(*ast.StarExpr); ok && strings.Contains(core.TypeString(info.TypeOf(st)), "nodeInfo") {
+										// merged := *first: the record is the local on the left
+										bases = append(bases, x.Lhs[i])
+									}
+								}
+							}
+						}
+						for _, base := range bases {
+							recs++
+							// a literal is complete where it is written; a copy that is
+							// patched field by field is complete at the function's exits
+							at := rv
+							if _, isLit := ast.Unparen(base).(*ast.CompositeLit); !isLit {
+								for _, ex := range g.Returns() {
+									if g.PathExists(rv, ex, nil) {
+										at = ex
+									}
+								}
+							}
+							rmin := fieldText(g, at, base, "minKey", 4)
+							rmax := fieldText(g, at, base, "maxKey", 4)
+							o.At(fn.Site(rv.AST, "node record"))
+							if rmin != lo {
+								o.FailAt(fn.Site(rv.AST, ""), "the node is recorded with least key %s but written with /Limits lower bound %s: the parent's /Limits are built from the record", rmin, lo)
+							}
+							if rmax != hi {
+								o.FailAt(fn.Site(rv.AST, ""), "the node is recorded with greatest key %s but written with /Limits upper bound %s: the parent's /Limits are built from the record, and lookups above its bound skip the node", rmax, hi)
+							}
+						}
+					}
+					if recs == 0 {
+						o.Unrec("%s: the record kept for the node written at %s was not found", fn.Key, c.Prog.Pos(cl.Pos()))
+					}
+					return true
+				})
+			}
+		}
+		o.Shape(nodes >= 2, "expected a leaf and an intermediate node with /Limits, found %d", nodes)
 	})
 	c.Check("C17-R3", pk+".(*treeWriter).addEntry", "keys must arrive strictly ascending: a key not greater than the previous one is rejected before it is buffered; a full leaf is completed at the fan-out bound", func(o *core.Ob) {
 		fn := c.Prog.Func(pk, "(*treeWriter).addEntry")
@@ -323,8 +617,66 @@ func runC17(c *core.Ctx) {
 			}
 			o.At(fn.Site(fn.Decl, name))
 			src := c.Prog.Src(fn.Decl.Body)
-			o.Shape(strings.Contains(src, "ifseen[ref]{") && strings.Contains(src, "seen[ref]=true"), "%s has no visited-set on kid references", name)
-			o.Shape(strings.Contains(src, "maxDepth()"), "%s has no depth bound", name)
+			// a visited-set keyed by Reference that is tested with an exit and
+			// extended, in the function itself or in an unexported helper that is
+			// handed the set (firstVisit(seen, ref))
+			visited := false
+			ast.Inspect(fn.Decl.Body, func(m ast.Node) bool {
+				is, ok := m.(*ast.IfStmt)
+				if !ok || !exits(is.Body) {
+					return true
+				}
+				ast.Inspect(is.Cond, func(k ast.Node) bool {
+					if ix, ok := k.(*ast.IndexExpr); ok {
+						if mt, ok := fn.Info().TypeOf(ix.X).Underlying().(*types.Map); ok && strings.Contains(core.TypeString(mt.Key()), "Reference") {
+							visited = true
+						}
+					}
+					return true
+				})
+				return true
+			})
+			stores := false
+			ast.Inspect(fn.Decl.Body, func(m ast.Node) bool {
+				if as, ok := m.(*ast.AssignStmt); ok {
+					for _, l := range as.Lhs {
+						if ix, ok := ast.Unparen(l).(*ast.IndexExpr); ok {
+							if mt, ok := fn.Info().TypeOf(ix.X).Underlying().(*types.Map); ok && strings.Contains(core.TypeString(mt.Key()), "Reference") {
+								stores = true
+							}
+						}
+					}
+				}
+				return true
+			})
+			if !(visited && stores) {
+				for _, cs := range core.CallsIn(fn.Info(), fn.Decl.Body, false) {
+					if cs.Fn == nil || cs.Fn.Exported() || cs.Fn.Pkg() != fn.Obj.Pkg() {
+						continue
+					}
+					h := c.Prog.FuncOf(cs.Fn)
+					if h == nil || h.Decl.Body == nil {
+						continue
+					}
+					takesSet := false
+					for _, a := range cs.Call.Args {
+						if mt, ok := fn.Info().TypeOf(a).Underlying().(*types.Map); ok && strings.Contains(core.TypeString(mt.Key()), "Reference") {
+							takesSet = true
+						}
+					}
+					hs := c.Prog.Src(h.Decl.Body)
+					if takesSet && strings.Contains(hs, "]=true") {
+						// the helper's result must decide an exit in the caller
+						for _, bv := range fn.Graph().BranchVertices() {
+							if bv.Cond.Expr != nil && len(core.CallsTo(fn.Info(), bv.Cond.Expr, false, cs.Key)) > 0 {
+								visited, stores = true, true
+							}
+						}
+					}
+				}
+			}
+			o.Shape(visited && stores, "%s has no visited-set on kid references (a set keyed by Reference that is tested with an exit and extended)", name)
+			o.Shape(strings.Contains(src, "maxDepth()") || strings.Contains(src, "maxDepth"), "%s has no depth bound", name)
 		}
 	})
 	c.Check("C17-R5", pk+".finish/empty", "an empty map yields no tree: finish returns the zero reference without writing anything", func(o *core.Ob) {
